@@ -28,6 +28,7 @@ where
       source.inner_subscribe(sctl.new_observer(
         move |serial, x| {
           if x == target {
+            sctl_next.upstream_abort_observe(&serial);
             sctl_next.sink_next(true);
             sctl_next.sink_complete(&serial);
           }
